@@ -311,15 +311,24 @@ def client_case(draw):
 
 
 def plan(tier):
-    n = 4 if tier == "quick" else 8
-    return [{"scene": "server", "i": i} for i in range(n)] + [{"scene": "client", "i": n + i} for i in range(n)]
+    n = 4 if tier == "quick" else 6
+    shards = []
+    if tier == "thorough":
+        shards += [{"part": "atheris", "target": t, "seconds": 300, "i": 900 + k, "max_len": m}
+                   for k, (t, m) in enumerate([("c32-server-raw", 2048), ("c32-client-raw", 2048),
+                                               ("c32-server", 16384), ("c32-client", 16384)])]
+    return shards + [{"scene": "server", "i": i} for i in range(n)] + [{"scene": "client", "i": n + i} for i in range(n)]
 
 
 def work(shard, seed, tier):
     from vp.core import env
     env.quiet_ioflo()
     acc = Acc()
-    n = 220 if tier == "quick" else 14000
+    if shard.get("part") == "atheris":
+        from vp.fuzz.fuzz_http import run_campaign
+        run_campaign(acc, shard["target"], shard["seconds"], seed, max_len=shard["max_len"])
+        return acc
+    n = 200 if tier == "quick" else 17000
     strat = server_case() if shard["scene"] == "server" else client_case()
 
     def execute(case):
@@ -341,7 +350,7 @@ def work(shard, seed, tier):
             classes.append(case["scene"] + ":behind-start-line")
         return Outcome(fails, nontrivial=bool(nt), classes=classes, key=key, sample=sample)
 
-    campaign(acc, strat, execute, n, seed * 1000 + shard["i"], budget=Budget(60 if tier == "quick" else 420))
+    campaign(acc, strat, execute, n, seed * 1000 + shard["i"], budget=Budget(120 if tier == "quick" else 420))
     return acc
 
 
